@@ -24,6 +24,20 @@ def make_files(r, tier):
         WE, _ = weights(r, E, ["small", "two", "wide"][i % 3])
         p = os.path.join(d, "valid%d.dimacs" % i); write_file(p, n, WE, trailing=(i % 2 == 0), omit_ones=(i % 3 != 2))
         files.append((p, (0, 0, 0), n, WE))
+    # the graph classes of the property's quantifier that a random draw rarely produces: a cyclic component beside
+    # tree components / isolated vertices (m < n although the basis is non-empty), forests, several cyclic components
+    def structured():
+        a = r.randint(3, 6); t = r.randint(a, a + 4); iso = r.randint(1, 3)
+        E = [(i, (i + 1) % a) for i in range(a)] + [(a + i, a + i + 1) for i in range(t - 1)]
+        yield a + t + iso, E, "cycle+path+isolated"
+        yield 7, [(0, 1), (1, 2), (2, 0), (3, 4), (4, 5), (5, 3)], "two-triangles+isolated"
+        nn = r.randint(4, 9)
+        yield nn + 1, random_tree(r, nn), "forest+isolated"
+        yield 6, [(0, 1), (1, 2), (2, 3), (3, 0), (0, 2)], "theta+isolated"
+    for j, (n, E, tag) in enumerate(structured()):
+        WE, _ = weights(r, E, ["small", "two", "wide"][j % 3])
+        p = os.path.join(d, "struct%d.dimacs" % j); write_file(p, n, WE, trailing=(j % 2 == 1), omit_ones=(j % 2 == 0))
+        files.append((p, (0, 0, 0), n, WE))
     base_n, base = 5, [(0, 1, 2), (1, 2, 3), (2, 0, 4), (2, 3, 1), (3, 4, 2), (4, 2, 5)]
     bads = {"loop": (base + [(3, 3, 1)], (1, 0, 0)), "parallel": (base + [(1, 0, 7)], (0, 1, 0)), "zero": (base + [(0, 3, 0)], (0, 0, 1)),
             "negative": (base + [(0, 3, "-2.5")], (0, 0, 1)), "loop+zero": (base + [(1, 1, 0)], (1, 0, 1)), "all": (base + [(1, 1, 1), (0, 1, 1), (0, 4, "-1")], (1, 1, 1))}
@@ -53,7 +67,7 @@ def run(tier, replay=None):
         for par in (1, 0):
             optsets.append({"signed": sg, "fvstrees": fv, "isotrees": iso, "parallel": par})
     for fi, (path, facts, n, WE) in enumerate(files):
-        subset = optsets if (tier != "quick" or fi < 2 or WE is None) else optsets[:4]
+        subset = optsets if (tier != "quick" or fi < 2 or WE is None) else optsets[:4] if fi < 3 else optsets[:6:2]
         if WE is None and tier == "quick": subset = optsets[::3]
         for o in subset:
             extra = r.choice([{}, {"verbose": 1}, {"printcycles": 1}, {"cores": 2}])
